@@ -1,6 +1,7 @@
 (* Extraction of the executable models to OCaml (ExtrOcamlBasic only; N, positive, nat stay inductive). *)
 Require Extraction.
 Require Import ExtrOcamlBasic.
-From LLB Require Import Base.Bytes Path.PathPrefix Codec.Codec.
+From LLB Require Import Base.Bytes Path.PathPrefix Codec.Codec Codec.FileObs.
 Extraction "extracted/Model.ml" pip pip_unrepaired to_delete stale_history
-  enc_value dec_value enc_key dec_key has_sig has_info has_strs.
+  enc_value dec_value enc_key dec_key has_sig has_info has_strs
+  observe info_eqb info_eqb_unrepaired is_missing.
